@@ -379,6 +379,11 @@ func runCaseSharded(ctx *runner.Ctx, k cs, shard, nshards int) {
 		return
 	}
 	x := &csched.Explorer{PBound: k.P, EBound: k.E, FBound: k.F, Shard: shard, NShards: nshards, Opts: csched.Options{HashStates: true}, Stop: ctx.Expired}
+	if b := os.Getenv("C11_U_BUDGET"); b != "" && k.U {
+		d, _ := time.ParseDuration(b)
+		end := time.Now().Add(d)
+		x.Stop = func() bool { return time.Now().After(end) }
+	}
 	if k.P >= 2 && k.F == 0 {
 		x.ShareDepth = 2 // unbounded free switches make subtree sizes uneven: deal one level deeper
 	}
